@@ -188,14 +188,18 @@ func (w *worker[T, JobType]) releaseWaiters(processing uint32) {
 		return
 	}
 
-	// Only release waiters if worker is paused or if running with an empty queue
-	if w.IsPaused() || (w.IsRunning() && w.queues.Len() == 0) {
-		// Broadcast under the lock: a waiter evaluates its condition while holding
-		// the lock, so the wake-up cannot fall between its check and its Wait.
-		w.mx.Lock()
-		w.waiters.Broadcast()
-		w.mx.Unlock()
+	// A running worker with pending jobs keeps its waiters asleep; in every other
+	// state (paused, stopped, running with empty queues) nothing in flight is all
+	// they are waiting for.
+	if w.IsRunning() && w.queues.Len() > 0 {
+		return
 	}
+
+	// Broadcast under the lock: a waiter evaluates its condition while holding
+	// the lock, so the wake-up cannot fall between its check and its Wait.
+	w.mx.Lock()
+	w.waiters.Broadcast()
+	w.mx.Unlock()
 }
 
 // wakeWaiters lets WaitUntilFinished callers re-evaluate their condition after
@@ -622,6 +626,9 @@ func (w *worker[T, JobType]) Pause() error {
 	switch s := w.status.Load(); s {
 	case running:
 		w.status.Store(paused)
+		// a waiter that was waiting for the queues to drain now only waits for the
+		// jobs in flight
+		w.wakeWaiters()
 	case paused, stopped:
 		return nil
 	default:
@@ -650,6 +657,8 @@ func (w *worker[T, JobType]) Stop() error {
 	if cancel != nil {
 		defer cancel()
 	}
+	// (runs after the status store below)
+	defer w.wakeWaiters()
 	defer w.status.Store(stopped)
 
 	w.stopTickers()
